@@ -72,6 +72,11 @@ Definition need_update (c : fmap) (u : updater) : bool :=
   | None => true
   end.
 
+(* a write as the harness sees it: (file, content read right after the call). Content code -2
+   is the literal "-1" in cpu.max, which the kernel emulation of the harness reads back as "max". *)
+Definition norm (v : Z) : Z := if v =? -2 then -1 else v.
+Definition apply_write (fs : fmap) (w : write) : fmap := set fs (fst w) (norm (snd w)).
+
 (* one iteration of the first (top-down) loop of LeveledUpdateBatch on a mergeable updater *)
 Definition merge_step (e : env) (st : state) (u : updater) : state * list write :=
   let k := kindof e (ukey u) in
@@ -82,8 +87,8 @@ Definition merge_step (e : env) (st : state) (u : updater) : state * list write 
       (mkSt (sfs st) (set (scache st) (ukey u) (if is_q e k then -3 else old)), [])
     else
       let m := merged_value k old (uval u) in
-      (mkSt (set (sfs st) (ukey u) m) (set (scache st) (ukey u) m),
-       [(ukey u, if is_q e k && (m =? -1) then -2 else m)])
+      let w := (ukey u, if is_q e k && (m =? -1) then -2 else m) in
+      (mkSt (apply_write (sfs st) w) (set (scache st) (ukey u) m), [w])
   else (st, []).
 
 (* one iteration of the second (bottom-up) loop of LeveledUpdateBatch, which is also
@@ -95,7 +100,7 @@ Definition exact_step (e : env) (st : state) (u : updater) : state * list write 
     let c' := set (scache st) (ukey u) (if is_q e k && (uval u =? -1) then -2 else uval u) in
     if negb (is_q e k) && (cur =? uval u)
     then (mkSt (sfs st) c', [])
-    else (mkSt (set (sfs st) (ukey u) (uval u)) c', [(ukey u, uval u)])
+    else let w := (ukey u, uval u) in (mkSt (apply_write (sfs st) w) c', [w])
   else (st, []).
 
 Fixpoint run (step : state -> updater -> state * list write) (st : state) (us : list updater)
@@ -126,18 +131,22 @@ Definition be_apply (e : env) (st : state) (paths : list Z) (oldset newset : Z) 
 (* ---------- histories ---------- *)
 Inductive op :=
 | OBatch (levels : list (list updater))   (* one LeveledUpdateBatch call *)
-| OExpire (key : Z).                      (* the cache entry expires / is older than the force-update interval *)
+| OExpire (key : Z)                       (* the cache entry expires / is older than the force-update interval *)
+| OBe (paths : list Z) (old : option Z) (new : Z).
+    (* one applyCPUSetWithNonePolicy call; [old = None]: oldCPUSet is the current cpuset of the
+       first path (the BE root), which is what adjustByCPUSet passes *)
+
+Definition be_old (fs : fmap) (paths : list Z) (old : option Z) : Z :=
+  match old with Some o => o | None => get fs (hd 0 paths) end.
 
 Definition step_op (e : env) (st : state) (o : op) : state * list write :=
   match o with
   | OBatch ls => leveled_update e st ls
   | OExpire k => (mkSt (sfs st) (del (scache st) k), [])
+  | OBe paths old new => be_apply e st paths (be_old (sfs st) paths old) new
   end.
 
 (* ---------- what the property speaks about ---------- *)
-(* content code -2 (literal "-1" in cpu.max) is read back by the kernel emulation as "max" *)
-Definition norm (v : Z) : Z := if v =? -2 then -1 else v.
-Definition apply_write (fs : fmap) (w : write) : fmap := set fs (fst w) (norm (snd w)).
 Definition apply_writes (ws : list write) (fs : fmap) : fmap := fold_left apply_write ws fs.
 
 Definition edge_ok (e : env) (fs : fmap) (cp : Z * Z) : bool :=
